@@ -7,10 +7,18 @@ fuel; the statement level and the induction itself are in LangSoundS.lean.
 -/
 namespace Lang
 
+/-- `b` may be the truth value of `v`: fixed for everything but objects (a `__bool__` method may say either) -/
+def mayBe (v : Val) (b : Bool) : Prop :=
+  match v with
+  | .ref _ => True
+  | _ => truthy v = b
+
+theorem mayBe_bool {b c : Bool} (h : mayBe (.bool b) c) : b = c := h
+
 /-- what evaluation of a checked expression guarantees -/
 def ExprSpec (P : Prog) (σ : Store) (r : ERes) : State → Val → Prop :=
   fun st' v => hasTy P st'.heap v r.ty ∧
-    (truthy v = true → MapOK P st'.heap σ r.yes) ∧ (truthy v = false → MapOK P st'.heap σ r.no)
+    (mayBe v true → MapOK P st'.heap σ r.yes) ∧ (mayBe v false → MapOK P st'.heap σ r.no)
 
 def ExprOK (P : Prog) (tm : Recs) (n : Nat) : Prop :=
   ∀ (k : Nat) (C : Ctx) (Γ : Env) (an cd : Bool) (e : Expr) (r : ERes) (σ : Store) (st : State), C.P = P →
@@ -138,6 +146,55 @@ theorem sat_methOf (t : Typed P tm) {st : State} {v : Val} {m : Nat} {T : Ty} {s
   simp only [methOf, hc, hlk, Post]
   exact ⟨hi, Ext.refl _, k, fd0, ⟨.cls k, by simp, by simp only [hasAtom]; exact ⟨c, hc, hck⟩⟩, hown, hmem, hcomp⟩
 
+/-- `bool(v)` for a condition: a checked `__bool__` (no parameters, returns bool) or the built-in truth value -/
+theorem sat_truthOf (t : Typed P tm) (hs : StmtOK P tm n) {st : State} {v : Val} {T : Ty} (hv : hasTy P st.heap v T) :
+    Sat P tm st (truthOf (evalS n P) P v) (fun _ b => mayBe v b) := by
+  have w := t.wf
+  cases v with
+  | ref l =>
+    obtain ⟨a, _, hva⟩ := hv
+    have hcls : ∃ k, classOf st.heap l = some k := by
+      cases a <;> simp [hasAtom] at hva
+      · exact hva
+      · obtain ⟨k, hk, _⟩ := hva; exact ⟨k, hk⟩
+    obtain ⟨k, hk⟩ := hcls
+    cases hl : lookupMeth P k boolMeth with
+    | none =>
+      intro hi
+      simp only [truthOf, hk, hl, Post]
+      exact ⟨hi, Ext.refl _, trivial⟩
+    | some kf =>
+      obtain ⟨k', fd⟩ := kf
+      obtain ⟨hk'mem, hown⟩ := findMeth_some_mem _ _ _ hl
+      have hsig : fd.params = [] ∧ fd.ret = [.bool] := by
+        unfold ownMeth at hown
+        cases hkc : P.classes[k']? with
+        | none => simp [hkc] at hown
+        | some kd =>
+          simp [hkc] at hown
+          exact (t.cls k' kd hkc).boolSig fd (lookup_mem hown)
+      have hargs : ArgsOK P st.heap [Val.ref l] (selfTys (some k') ++ fd.params) := by
+        rw [hsig.1]
+        simp only [selfTys, List.append_nil, ArgsOK, and_true]
+        exact ⟨.cls k', by simp, by simp only [hasAtom]; exact ⟨k, hk, isSub_iff.mpr hk'mem⟩⟩
+      have hcall := callBody_ok hs (t.meth hown) hargs
+      have : truthOf (evalS n P) P (Val.ref l) st =
+          (M.bind (callBody (evalS n P) fd [Val.ref l]) asBool) st := by
+        simp [truthOf, hk, hl, hsig.1]
+      intro hi
+      rw [this]
+      refine sat_bind hcall ?_ hi
+      intro st1 r _ hr
+      rw [hsig.2] at hr
+      obtain ⟨a', ha', hra⟩ := hr
+      simp at ha'; subst ha'
+      cases r <;> simp [hasAtom] at hra
+      exact sat_pure (by simp [mayBe])
+  | int i => intro hi; simp only [truthOf, Post]; exact ⟨hi, Ext.refl _, rfl⟩
+  | str s => intro hi; simp only [truthOf, Post]; exact ⟨hi, Ext.refl _, rfl⟩
+  | bool b => intro hi; simp only [truthOf, Post]; exact ⟨hi, Ext.refl _, rfl⟩
+  | none => intro hi; simp only [truthOf, Post]; exact ⟨hi, Ext.refl _, rfl⟩
+
 /-! ## Arithmetic -/
 
 theorem intLike_toInt {h : Heap} {v : Val} {T : Ty} (ht : hasTy P h v T) (hi : isIntLike T = true) :
@@ -151,6 +208,12 @@ theorem intLike_toInt {h : Heap} {v : Val} {T : Ty} (ht : hasTy P h v T) (hi : i
     cases v <;> simp [hasAtom] at hva <;> simp [toInt?]
 
 theorem str_val {h : Heap} {v : Val} (ht : hasTy P h v [.str]) : ∃ s, v = .str s := by
+  obtain ⟨a, ha, hva⟩ := ht
+  simp at ha; subst ha
+  cases v <;> simp [hasAtom] at hva
+  exact ⟨_, rfl⟩
+
+theorem bool_val {h : Heap} {v : Val} (ht : hasTy P h v [.bool]) : ∃ b, v = .bool b := by
   obtain ⟨a, ha, hva⟩ := ht
   simp at ha; subst ha
   cases v <;> simp [hasAtom] at hva
@@ -281,8 +344,8 @@ theorem expr_step (t : Typed P tm) (ih : EvalOK P tm n) : ExprOK P tm (n + 1) :=
     simp only [evalE]
     apply sat_pure
     refine ⟨hasTy_bool b, ?_, ?_⟩
-    · intro hb; rw [truthy_bool] at hb; subst hb; exact MapOK.noInfo
-    · intro hb; rw [truthy_bool] at hb; subst hb; exact MapOK.noInfo
+    · intro hb; have hb := mayBe_bool hb; subst hb; exact MapOK.noInfo
+    · intro hb; have hb := mayBe_bool hb; subst hb; exact MapOK.noInfo
   | noneLit =>
     simp only [tcE, pure_ok] at htc; subst htc
     simp only [evalE]; exact sat_pure (spec_plain ⟨.none, by simp, by simp [hasAtom]⟩)
@@ -315,7 +378,7 @@ theorem expr_step (t : Typed P tm) (ih : EvalOK P tm n) : ExprOK P tm (n + 1) :=
             refine List.mem_filter.mpr ⟨ha, ?_⟩
             cases a <;> simp
             cases v <;> simp [hasAtom] at hva
-            simp [truthy] at htv
+            simp [mayBe, truthy] at htv
           split
           · next he =>
             have hnil := List.isEmpty_iff.mp he
@@ -423,8 +486,8 @@ theorem expr_step (t : Typed P tm) (ih : EvalOK P tm n) : ExprOK P tm (n + 1) :=
         refine ⟨hi, Ext.refl _, ?_⟩
         obtain ⟨h1, h2⟩ := instMaps_sound w hms hi.1 hv hvT
         refine ⟨hasTy_bool b, ?_, ?_⟩
-        · intro htb; rw [truthy_bool] at htb; exact h1 (hb.mp htb)
-        · intro htb; rw [truthy_bool] at htb
+        · intro htb; have htb := mayBe_bool htb; exact h1 (hb.mp htb)
+        · intro htb; have htb := mayBe_bool htb
           exact h2 (fun hc => by rw [hb.mpr hc] at htb; cases htb)
   | isNone x neg =>
     simp only [tcE] at htc
@@ -443,11 +506,11 @@ theorem expr_step (t : Typed P tm) (ih : EvalOK P tm n) : ExprOK P tm (n + 1) :=
       apply sat_pure
       obtain ⟨h1, h2⟩ := noneMaps_sound hms hv hvT
       refine ⟨hasTy_bool _, ?_, ?_⟩
-      · intro htb; rw [truthy_bool] at htb
+      · intro htb; have htb := mayBe_bool htb
         cases neg with
         | false => simp at htb; simpa using h1 htb
         | true => simp at htb; simpa using h2 htb
-      · intro htb; rw [truthy_bool] at htb
+      · intro htb; have htb := mayBe_bool htb
         cases neg with
         | false => simp at htb; simpa using h2 htb
         | true => simp at htb; simpa using h1 htb
@@ -458,10 +521,18 @@ theorem expr_step (t : Typed P tm) (ih : EvalOK P tm n) : ExprOK P tm (n + 1) :=
     simp only [evalE]
     refine sat_bind (ih.expr k C Γ false cd e r0 σ st rfl hr0 hrecs hst) ?_
     intro st1 v _ hv
+    refine sat_bind (sat_truthOf t ih.stmt hv.1) ?_
+    intro st2 tv e2 htv
     apply sat_pure
     refine ⟨hasTy_bool _, ?_, ?_⟩
-    · intro htb; rw [truthy_bool] at htb; exact hv.2.2 (by simpa using htb)
-    · intro htb; rw [truthy_bool] at htb; exact hv.2.1 (by simpa using htb)
+    · intro htb
+      have htb := mayBe_bool htb
+      have : tv = false := by simpa using htb
+      subst this; exact (hv.2.2 htv).ext e2
+    · intro htb
+      have htb := mayBe_bool htb
+      have : tv = true := by simpa using htb
+      subst this; exact (hv.2.1 htv).ext e2
   | and a b =>
     simp only [tcE, bind_ok, req_ok] at htc
     obtain ⟨ra, hra, _, hbool, htc⟩ := htc
@@ -474,23 +545,31 @@ theorem expr_step (t : Typed P tm) (ih : EvalOK P tm n) : ExprOK P tm (n + 1) :=
       subst hr
       simp only [evalE]
       refine sat_bind (ih.expr k C Γ false true a ra σ st rfl hra (fun x hx => hrecs x (List.mem_append_left _ hx)) hst) ?_
-      intro st1 v e1 hv
-      cases htv : truthy v with
+      intro st0 v e0 hv
+      have hvb : hasTy C.P st0.heap v [.bool] := by rw [← beq_ty hbool]; exact hv.1
+      obtain ⟨bv, rfl⟩ := bool_val hvb
+      refine sat_bind (sat_truthOf t ih.stmt hvb) ?_
+      intro st1 tv e01 htv
+      have htv' := mayBe_bool htv
+      subst htv'
+      have e1 := e0.trans e01
+      cases bv with
       | true =>
         simp only [if_true]
-        obtain ⟨Γ', hΓ', hstΓ⟩ := (hv.2.1 htv).push false (hst.ext e1)
+        have hyes := (hv.2.1 htv).ext e01
+        obtain ⟨Γ', hΓ', hstΓ⟩ := hyes.push false (hst.ext e1)
         rw [hpm] at hΓ'; cases hΓ'
         refine sat_mono (ih.expr k C Γa false cd b rb σ st1 rfl hrb (fun x hx => hrecs x (List.mem_append_right _ hx)) hstΓ) ?_
         intro st2 u e2 hu
         refine ⟨by rw [← beq_ty hboolb]; exact hu.1, ?_, ?_⟩
-        · intro htu; exact ((hv.2.1 htv).ext e2).and (hu.2.1 htu)
+        · intro htu; exact (hyes.ext e2).and (hu.2.1 htu)
         · intro htu; exact MapOK.or_right w (hu.2.2 htu)
       | false =>
         simp only [Bool.false_eq_true, if_false]
         apply sat_pure
-        refine ⟨by rw [← beq_ty hbool]; exact hv.1, ?_, ?_⟩
-        · intro h; rw [htv] at h; cases h
-        · intro _; exact MapOK.or_left w (hv.2.2 htv)
+        refine ⟨hasTy_bool _, ?_, ?_⟩
+        · intro h; have := mayBe_bool h; cases this
+        · intro _; exact MapOK.or_left w ((hv.2.2 htv).ext e01)
   | or a b =>
     simp only [tcE, bind_ok, req_ok] at htc
     obtain ⟨ra, hra, _, hbool, htc⟩ := htc
@@ -503,23 +582,31 @@ theorem expr_step (t : Typed P tm) (ih : EvalOK P tm n) : ExprOK P tm (n + 1) :=
       subst hr
       simp only [evalE]
       refine sat_bind (ih.expr k C Γ false true a ra σ st rfl hra (fun x hx => hrecs x (List.mem_append_left _ hx)) hst) ?_
-      intro st1 v e1 hv
-      cases htv : truthy v with
+      intro st0 v e0 hv
+      have hvb : hasTy C.P st0.heap v [.bool] := by rw [← beq_ty hbool]; exact hv.1
+      obtain ⟨bv, rfl⟩ := bool_val hvb
+      refine sat_bind (sat_truthOf t ih.stmt hvb) ?_
+      intro st1 tv e01 htv
+      have htv' := mayBe_bool htv
+      subst htv'
+      have e1 := e0.trans e01
+      cases bv with
       | false =>
         simp only [Bool.false_eq_true, if_false]
-        obtain ⟨Γ', hΓ', hstΓ⟩ := (hv.2.2 htv).push false (hst.ext e1)
+        have hno := (hv.2.2 htv).ext e01
+        obtain ⟨Γ', hΓ', hstΓ⟩ := hno.push false (hst.ext e1)
         rw [hpm] at hΓ'; cases hΓ'
         refine sat_mono (ih.expr k C Γa false cd b rb σ st1 rfl hrb (fun x hx => hrecs x (List.mem_append_right _ hx)) hstΓ) ?_
         intro st2 u e2 hu
         refine ⟨by rw [← beq_ty hboolb]; exact hu.1, ?_, ?_⟩
         · intro htu; exact MapOK.or_right w (hu.2.1 htu)
-        · intro htu; exact ((hv.2.2 htv).ext e2).and (hu.2.2 htu)
+        · intro htu; exact (hno.ext e2).and (hu.2.2 htu)
       | true =>
         simp only [if_true]
         apply sat_pure
-        refine ⟨by rw [← beq_ty hbool]; exact hv.1, ?_, ?_⟩
-        · intro _; exact MapOK.or_left w (hv.2.1 htv)
-        · intro h; rw [htv] at h; cases h
+        refine ⟨hasTy_bool _, ?_, ?_⟩
+        · intro _; exact MapOK.or_left w ((hv.2.1 htv).ext e01)
+        · intro h; have := mayBe_bool h; cases this
   | eq a b =>
     simp only [tcE, bind_ok, req_ok, pure_ok] at htc
     obtain ⟨_, _, ra, hra, rb, hrb, _, _, hr⟩ := htc
